@@ -1,6 +1,7 @@
 package main
 
 import (
+	"regexp"
 	"strings"
 
 	"github.com/specterops/dawgs/cypher/models/cypher"
@@ -139,4 +140,27 @@ func classOf(issue string, s shape) string {
 		return issue + ":variable-length-relationship-variable-in-predicate"
 	}
 	return issue
+}
+
+var generatedName = regexp.MustCompile(`\b(s|n|e|ep|i|pi|pc)[0-9]+\b`)
+
+// roleOf names the kind of translator-generated name the issue is about (the first one in its description): a frame
+// (s<N>), a node alias (n<N>), a relationship alias (e<N>), a path (ep<N>) or a value column (i<N>, pi<N>, pc<N>). Two
+// defects with the same trigger shape that leave different kinds of names dangling get different classes.
+func roleOf(detail string) string {
+	m := generatedName.FindStringSubmatch(detail)
+	if m == nil {
+		return ""
+	}
+	switch m[1] {
+	case "s":
+		return "@frame"
+	case "n":
+		return "@node-alias"
+	case "e":
+		return "@relationship-alias"
+	case "ep":
+		return "@path"
+	}
+	return "@value-column"
 }
